@@ -11,12 +11,21 @@ SC = {}
 XFER = ("read", "pread", "write", "pwrite")
 
 
+import multiprocessing as _mp
+HANGS = _mp.Value("i", 0)
+
+
 def run_plan(a):
     sname, plan = a
     s = SC[sname]
-    r = s.run(plan=plan, want_log=False, timeout=120)
-    if r["timeout"]:
-        r = s.run(plan=plan, want_log=False, timeout=1200)
+    # the scenarios take milliseconds; a run that exceeds 20 s is re-run alone with 120 s before it is called a hang. After three confirmed
+    # hangs further 20 s timeouts are reported without the long re-run (a tree that hangs on a whole family of plans would cost hours otherwise)
+    r = s.run(plan=plan, want_log=False, timeout=20)
+    if r["timeout"] and HANGS.value < 3:
+        r = s.run(plan=plan, want_log=False, timeout=120)
+        if r["timeout"]:
+            with HANGS.get_lock():
+                HANGS.value += 1
     r.pop("log", None)
     r["err"] = r["err"][-1500:]
     return sname, plan, r
